@@ -477,8 +477,8 @@ def judge(res, pdef):
             if pv:
                 findings.append(Finding('violation', res, i, pv))
                 break
-        race2 = any(l.startswith('race2') for l in res['script'])      # two stalled writers: the Spec oracle follows them
-        if (orc_applies or (race2 and c in ('r', 'ram', 'states', 'race2'))) and orc.startswith('MISMATCH') \
+        race2 = any(l.startswith(('race2', 'closerace')) for l in res['script'])      # stalled racers: the Spec oracle follows them
+        if (orc_applies or (race2 and c in ('r', 'ram', 'states', 'race2', 'closerace'))) and orc.startswith('MISMATCH') \
                 and not (nomodel and pdef.get('no_oracle_after_nomodel') and not race2):
             verdict = orc
             if nomodel and pdef.get('tolerate_err_after_damage') and impl.startswith(('err ', 'list')) and 'err ' in impl:
